@@ -181,6 +181,7 @@ def run_sched(case):
     rmv_fail = [False] * n                # the inner rmv the thread is about to reach raises
     fevs = []                             # file-level steps of the DiskCacher write: (position in the event list, thread, event)
     open_files = {}
+    open_paths = {}             # real path -> threads that have it open for writing (round h: two keys, one file)
 
     def fev(ev):
         tid_ = s.me()
@@ -246,6 +247,11 @@ def run_sched(case):
                     if tid_ is not None:
                         w = [t for t in open_files.get(ki_, []) if t != tid_]
                         path_ = str(dcache._cache_path(key))
+                        wp = [t for t in open_paths.get(os.path.realpath(path_), []) if t != tid_]
+                        if wp and not w:
+                            viol.append(("disk-reader-saw-open-file", "thread %d opens the entry %r through DiskCacher.get_set(key, None) while thread %s is writing the SAME FILE %r "
+                                         "for a different key (the file name does not identify the key; %d bytes on disk)"
+                                         % (tid_, key, wp, os.path.basename(path_), os.path.getsize(path_) if os.path.exists(path_) else -1)))
                         if w:
                             viol.append(("disk-reader-saw-open-file", "thread %d opens the entry %r through DiskCacher.get_set(key, None) while thread %s has its file open "
                                          "for writing (%d bytes on disk)" % (tid_, key, w, os.path.getsize(path_) if os.path.exists(path_) else -1)))
@@ -260,8 +266,8 @@ def run_sched(case):
         class WFile:
             """the file DiskCacher writes through: logs open / close and adds a scheduling point after the close"""
 
-            def __init__(self, f, ki_):
-                self._f, self._ki = f, ki_
+            def __init__(self, f, ki_, rp_=None):
+                self._f, self._ki, self._rp = f, ki_, rp_
 
             def __enter__(self):
                 return self
@@ -277,6 +283,8 @@ def run_sched(case):
                 tid_ = s.me()
                 if tid_ in open_files.get(self._ki, []):
                     open_files[self._ki].remove(tid_)
+                if tid_ in open_paths.get(self._rp, []):
+                    open_paths[self._rp].remove(tid_)
                 fev(("close", self._ki))
                 s.yp()          # between the close and get_set returning / the `except:` that removes a failed write
 
@@ -291,8 +299,10 @@ def run_sched(case):
                     return f
                 ki_ = kpos.get(os.path.basename(str(filename))[:-3], -1)
                 open_files.setdefault(ki_, []).append(tid_)
+                rp_ = os.path.realpath(str(filename))
+                open_paths.setdefault(rp_, []).append(tid_)
                 fev(("open", ki_, os.path.getsize(str(filename))))
-                return WFile(f, ki_)
+                return WFile(f, ki_, rp_)
 
             def __getattr__(self, name):
                 return getattr(real_gzip, name)
